@@ -338,9 +338,9 @@ func faultConcurrent(c *Ctx) {
 			return ""
 		}
 		// references: every event alone
-		ref := map[string]string{}    // rendering -> slot
-		refN := map[string]int{}      // slot -> number of Writes when alone (0 for an event its formatter refuses)
-		srcOf := map[string]string{}  // slot -> chain
+		ref := map[string]string{}   // rendering -> slot
+		refN := map[string]int{}     // slot -> number of Writes when alone (0 for an event its formatter refuses)
+		srcOf := map[string]string{} // slot -> chain
 		old := runtime.GOMAXPROCS(1)
 		for g := 0; g < G; g++ {
 			for i := 0; i < N; i++ {
